@@ -509,7 +509,7 @@ type simHost struct {
 
 	onStreamOp  func(st *simStream, op string)
 	openFail    func(remote peer.ID, n int) (fail bool, delay time.Duration) // fault hook for NewStream
-	connectHook func(pi peer.AddrInfo) error
+	connectHook func(ctx context.Context, pi peer.AddrInfo) error
 }
 
 func (s *sim) newHost(name string, priv crypto.PrivKey, ip string) *simHost {
@@ -574,7 +574,7 @@ func (h *simHost) Connect(ctx context.Context, pi peer.AddrInfo) error {
 	h.mu.Unlock()
 	h.s.note("connect %s -> %s", h.name, shortPeer(pi.ID))
 	if hook != nil {
-		return hook(pi)
+		return hook(ctx, pi)
 	}
 	return errSimRefused
 }
